@@ -19,7 +19,9 @@ class Mailbox(Parseable[str]):
 
     def __init__(self, mailbox: str) -> None:
         super().__init__()
-        if mailbox.upper() == 'INBOX':
+        if mailbox.isascii() and mailbox.upper() == 'INBOX':
+            # case-insensitive in US-ASCII only: str.upper() also folds
+            # e.g. U+0131 into "I"
             self.mailbox = 'INBOX'
             self._raw: bytes | None = b'INBOX'
         else:
